@@ -34,10 +34,31 @@ def np_ob(name, L, mode, front=True, **kw):
     d.update(kw)
     return d
 
+RP_INSTR = [["--replace-calls", "name_parse:c33r_name_parse_contract"],
+            ["--replace-calls", "request_finished:c33r_request_finished"],
+            ["--replace-calls", "nameserver_up:c33r_nameserver_up"],
+            ["--replace-calls", "nameserver_failed:c33r_nameserver_failed"],
+            ["--replace-calls", "request_reissue:c33r_request_reissue"],
+            ["--replace-calls", "evdns_request_timeout_callback:c33r_timeout_cb"],
+            ["--replace-calls", "client_retransmit_through_tcp:c33r_retransmit_tcp"]]
+
+def rp_ob(name, L, T=3, extra=(), **kw):
+    Q = (L - 12) // 5 + 2; R = (L - 12) // 11 + 2
+    d = dict(name=name, harness="C33_reply_parse.c", entry="harness_reply_parse",
+             defines=["C33R_L=%d" % L, "C33R_TEXT=%d" % T] + list(extra), instrument=RP_INSTR, unwind=2,
+             unwindset=["reply_parse.9:%d" % Q, "reply_parse.15:%d" % R, "reply_parse.28:%d" % R, "c33r_ref.0:%d" % Q, "c33r_ref.1:%d" % (L + 1), "c33r_ref.2:%d" % R,
+                        "c33r_texteq.0:%d" % (T + 2), "event_mm_strdup_.0:%d" % (T + 2), "c33r_name_parse_contract.0:%d" % (T + 1),
+                        "c33r_user_cb.0:%d" % (T + 2), "c33r_user_cb.1:%d" % (L + 8), "c33r_user_cb.2:%d" % (4 * L + 20), "c33r_user_cb.3:%d" % (T + 2),
+                        "harness_reply_parse.0:%d" % (T + 2), "harness_reply_parse.1:%d" % (L + 1), "harness_reply_parse.2:%d" % (T + 2),
+                        "vp_bytes.0:%d" % (L + 1), "vp_memcpy.0:%d" % (L + 2), "strcmp.0:%d" % (T + 2), "strlen.0:%d" % (T + 2)],
+             timeout=900, mem_gb=8, cbmc=["--object-bits", "10"], native=False,
+             desc="reply_parse..reply_run_callback on every reply <= %d bytes for one pending A/AAAA/PTR request, name_parse by contract (names <= %d bytes)" % (L, T))
+    d.update(kw); return d
+
 def obligations(tier):
     if tier == "quick":
         obs = [np_ob("np_safe_front_L12", 12, "safe"), np_ob("np_safe_tail_L8", 8, "safe", front=False),
-               np_ob("np_func_L8", 8, "func")]
+               np_ob("np_func_L8", 8, "func"), rp_ob("reply_L32", 32)]
     else:
         obs = [np_ob("np_safe_front_L16", 16, "safe"), np_ob("np_safe_tail_L12", 12, "safe", front=False),
                np_ob("np_func_L9", 9, "func")]
